@@ -39,6 +39,7 @@ structure Mon where
   expHandlers : List (Nat × List Reg) := []     -- per pending expect(): the bus's handler registry before the call
   expResolvedAt : List (Nat × Nat) := [] -- expect() calls: the time their future was resolved with a match
   expNested : List Nat := []            -- expect() calls resolved by an event whose activation is nested inside that of an earlier match
+  lateAccepted : List (BId × EId) := []  -- dispatches accepted by a bus whose run loop had already exited (stopped / cancelled)
   redone : List EId := []               -- events that were accepted by a bus again after their completion had been signalled
   selAt : List ((BId × EId) × List HId) := []   -- per begun activation: the ordinary handlers registered for a matching
                                         -- pattern at that moment (what "no handler is skipped" is about)
@@ -236,6 +237,7 @@ def Mon.step (m : Mon) (w : World) (l : Label) (w' : World) : Mon × List Vio :=
   | .dispatch p b e res =>
     let m := if res == .ok then { m with accepted := m.accepted ++ [(b, e)] } else m
     let m := if res == .ok && (w.ev e).signal && !m.redone.contains e then { m with redone := m.redone ++ [e] } else m
+    let m := if res == .ok && (w.bus b).rl == .exited then { m with lateAccepted := m.lateAccepted ++ [(b, e)] } else m
     let isFwd := match p with | .inst i => (w.inst i).kind.isForward | _ => false
     let m := if isFwd && res != .ok then { m with fwdRejected := true } else m
     let m := if !isFwd && res == .ok then { m with entries := m.entries ++ [(e, b)] } else m
@@ -592,6 +594,12 @@ def Mon.rest (m : Mon) (w : World) : List Vio :=
   let acc := m.accepted.eraseDups
   -- events abandoned because their bus was stopped / its run loop cancelled are outside these clauses
   let stopRelated (l : List String) : Bool := l.contains "stop-drop" || l.contains "stopped-backlog"
+  -- C14: an event accepted by a bus whose run loop had exited is processed all the same (the dispatch starts a new run
+  -- loop); it does not sit in the queue of a bus that has no run loop
+  (m.lateAccepted.eraseDups.flatMap fun (b, e) =>
+    if (w.bus b).queue.contains e && ((w.bus b).rl == .exited || (w.bus b).rl == .none) then
+      v "C14" "acceptedButNeverProcessed" [] s!"bus {b}: event {e} was accepted after the run loop had exited and is still queued, no run loop was started for it"
+    else []) ++
   (acc.flatMap fun (b, e) =>
     let hs := hangSigs w m e
     let bs := busHangSigs w m b
